@@ -108,7 +108,8 @@ def reader_programs(res, E, hist_fields):
     for name, body in targets:
         res.functions.append("%s (MIR, %d blocks)" % (name, len(body.blocks)))
         paths = E.explore(body, max_visits=2, nomut=[r"."], keep_drop_events=True,
-                          inline=[r"SharedHistory::read$"] if name.startswith("SharedHistory") else [])
+                          inline=[r"SharedHistory::\w+$", r"^<SharedHistory as PayloadSource>::\w+$|PayloadSource::(notify|ready)$"]
+                          if name.startswith("SharedHistory") else [r"SharedHistory::(read|notify|serial|session_and_serial)$"])
         seqs = []
         for p in paths:
             if p.kind != "return":
